@@ -8,8 +8,9 @@ variant; on table expressions both must equal the AST the table assigns
 Tie (L2): fend_core::evaluate on the minimal and the fully parenthesised
 rendering must give the same result, and the reference evaluator's value when
 it is an exact integer."""
-import json
+import json, sys
 from fractions import Fraction
+sys.setrecursionlimit(20000)
 from vlib import sx, Sym, parse_sx, try_parse, cps
 import lexcheck
 
@@ -411,6 +412,7 @@ def magnitude_ok(e, env):
 # generators
 
 NUMS = ['0', '1', '2', '3', '4', '5', '7', '10', '12']
+NUMS_EXTRA = ['100', '64', '1000']
 NUMS_L1 = NUMS + ['1.5', '0x1f', '1e3', '6#100', '0.(3)', '1,000', '2.5e-3', 'd6', '0b101']
 IDS = ['x', 'y', 'a', 'b', 'foo', 'kg', 'm', 's', 'pi', 'e', 'i', 'sin', 'light', 'k9', 'x_1', 'sqrt']
 IDS_RARE = ['%', '$', '°', 'lightyear', 'ans', '_']
@@ -558,9 +560,9 @@ def lexparse_line(text, comma=False):
 
 def learn_payloads(c):
     """payload bytes the real lexer attaches to each number literal text"""
-    outs = c.impl('lang', [lexparse_line(t) for t in NUMS_L1])
+    outs = c.impl('lang', [lexparse_line(t) for t in NUMS_L1 + NUMS_EXTRA])
     pay = {}
-    for t, o in zip(NUMS_L1, outs):
+    for t, o in zip(NUMS_L1 + NUMS_EXTRA, outs):
         p = try_parse(o)
         if not (isinstance(p, list) and p and p[0] == b'ok' and len(p[1]) == 1 and p[1][0][0] == b'n'):
             raise RuntimeError('number literal %r does not lex to one Num token: %s' % (t, o))
@@ -568,10 +570,128 @@ def learn_payloads(c):
     return pay
 
 
+
+# ---------------------------------------------------------------------------
+# long and wide shapes.  A random tree of depth d almost never has more than a
+# handful of operands at one level, so anything in the implementation that
+# depends on the LENGTH of an operator run (chunking, balancing, counters,
+# depth guards) or on the NUMBER of parenthesised groups in the text would be
+# invisible to gen_tree.  These generators are parametric in the table only.
+
+LEFT_LEVELS = [  # operator codes of each left-associative level
+    [0], [1], [2], [3], [4], [5, 6], [7, 8], [9, 10, 11],
+]
+CHAIN_LENGTHS_QUICK = [2, 3, 5, 8, 12, 15, 16, 17, 24, 31, 32, 33, 40, 63, 64, 65]
+CHAIN_LENGTHS_THOROUGH = CHAIN_LENGTHS_QUICK + [48, 96, 127, 128, 129, 160, 200]
+
+
+def left_chain(ops, terms):
+    """((t0 op t1) op t2) ... with ops[i] between term i and i+1"""
+    e = terms[0]
+    for o, t in zip(ops, terms[1:]):
+        e = ('B', o, e, t)
+    return e
+
+
+def right_chain(mk, terms):
+    e = terms[-1]
+    for t in reversed(terms[:-1]):
+        e = mk(t, e)
+    return e
+
+
+def small_term(r, level, l1):
+    """an operand that needs no parentheses at the given level: an atom, or a
+    small expression of a tighter level"""
+    k = r.random()
+    num = lambda: ('N', r.choice(NUMS_L1 if l1 else ['0', '1', '1', '2', '3']))
+    if k < 0.6:
+        return num()
+    if l1 and k < 0.7:
+        return ('I', r.choice(IDS[:8]))
+    tighter = [o for o in range(12) if BLEVEL[o] > level and (l1 or o in (7, 8, 9))]
+    if tighter and k < 0.9:
+        return ('B', r.choice(tighter), num(), num())
+    if k < 0.95:
+        return ('G', num())
+    return ('P', ('B', r.choice([7, 8, 9]), num(), num()))
+
+
+def shape_trees(r, lengths, l1, per_length=1):
+    """long runs at every left-associative level with mixed operators of the
+    level, long right-nested runs of ^ and =, long ; sequences, stacks of
+    unary minus and of !, and wide rows of parenthesised sibling groups"""
+    out = []
+    for n in lengths:
+        for _ in range(per_length):
+            for ops in LEFT_LEVELS:
+                lv = BLEVEL[ops[0]]
+                terms = [small_term(r, lv, l1) for _ in range(n)]
+                if not l1 and lv in (4, 5):
+                    # keep n nPr k / n nCr k inside the reference's domain
+                    terms = [('N', r.choice(['3', '4', '5']))] + [('N', '1')] * (n - 1)
+                if not l1 and lv == 9:
+                    terms = [('N', r.choice(['1', '2', '3']))] + [('N', r.choice(['0', '1', '1', '2'])) for _ in range(n - 1)]
+                out.append(('chain-l%d' % lv, left_chain([r.choice(ops) for _ in range(n - 1)], terms)))
+            # plain atoms, one operator: the textbook case  a - b - c - ...
+            o = r.choice([7, 8, 8, 9, 10, 11, 5, 6, 4, 3, 2])
+            first = ('N', r.choice(['100', '64', '7', '1000']))
+            out.append(('chain-plain', left_chain([o] * (n - 1), [first] + [('N', r.choice(['1', '1', '2', '3'])) for _ in range(n - 1)])))
+            # wide: n sibling groups in explicit parentheses at one level
+            lvops = r.choice(LEFT_LEVELS[4:])
+            grp = lambda: ('P', ('B', r.choice([7, 8, 9]), ('N', r.choice(['1', '2', '3'])), ('N', r.choice(['1', '2']))))
+            out.append(('wide-groups', left_chain([r.choice(lvops) for _ in range(n - 1)], [grp() for _ in range(n)])))
+            # the same groups without the explicit parentheses where the table already groups them
+            out.append(('wide-products', left_chain([r.choice([7, 8]) for _ in range(n - 1)],
+                                                    [('B', 9, ('N', r.choice(['1', '2', '3'])), ('N', r.choice(['1', '2']))) for _ in range(n)])))
+            m = min(n, 40)
+            # right-nested ^ (exponents kept tiny so that values stay small)
+            base = ('N', r.choice(['2', '3']))
+            exps = [('N', r.choice(['1', '1', '1', '0', '2'])) if r.random() < 0.85 else ('G', ('N', '1')) for _ in range(m - 1)]
+            out.append(('chain-pow', right_chain(lambda a, b: ('W', a, b), [base] + exps)))
+            # x = y = ... = v ; and a ; b ; c ...
+            names = [r.choice(['x', 'y', 'a', 'b']) for _ in range(m - 1)]
+            out.append(('chain-assign', right_chain(lambda a, b: ('A', a[1], b), [('I', nm) for nm in names] + [('N', r.choice(NUMS[:6]))])))
+            seq = ('A', 'x', ('N', '1'))
+            for i in range(m - 1):
+                seq = ('S', seq, ('A', 'x', ('B', r.choice([7, 8, 9]), ('I', 'x'), ('N', r.choice(['1', '2'])))) if r.random() < 0.8 else ('I', 'x'))
+            out.append(('chain-seq', seq))
+            # - - - ... v  and  v ! ! ! ...
+            e = ('N', r.choice(['0', '1', '2', '5']))
+            for _ in range(m):
+                e = ('G', e)
+            out.append(('stack-neg', e))
+            e = ('N', r.choice(['0', '1', '2']))
+            for _ in range(min(m, 20)):
+                e = ('F', e)
+            out.append(('stack-fact', e))
+    return out
+
+
+def sprinkle(e, r, p):
+    """e with explicit parentheses added around a random subset of its
+    sub-expressions (every one of them is already grouped by the table)"""
+    k = e[0]
+    if k in 'NIJ':
+        return e
+    w = lambda a: ('P', sprinkle(a, r, p)) if (a[0] not in 'NIP' and r.random() < p) else sprinkle(a, r, p)
+    if k == 'P':
+        return ('P', sprinkle(e[1], r, p))
+    if k in 'FG':
+        return (k, w(e[1]))
+    if k in 'WS':
+        return (k, w(e[1]), w(e[2]))
+    if k in 'BE':
+        return (k, e[1], w(e[2]), w(e[3]))
+    if k == 'A':
+        return ('A', e[1], w(e[2]))
+    raise ValueError(k)
+
+
 def table_cases(c, pay):
     r = c.rng
     quick = c.tier == 'quick'
-    n = 1500 if quick else 25000
+    n = 1200 if quick else 25000
     maxd = 6 if quick else 9
     trees = []
     # boundary corpus first: every ordered pair of binary operators, both groupings,
@@ -601,10 +721,38 @@ def table_cases(c, pay):
               ('A', 'x', ('S', A, Bn)), ('A', 'x', ('E', True, A, Bn)), ('E', True, ('A', 'x', A), Bn),
               ('J', '2', 'light'), ('J', '2', '%'), ('B', 9, ('J', '2', '%'), Cn), ('B', 7, ('J', '2', '%'), Cn),
               ('I', 'light'), ('B', 9, ('I', 'light'), Cn), ('I', '%'), ('B', 7, ('I', '%'), Cn), ('P', ('P', A)), ('P', ('J', '2', 'kg'))]
+    lengths = CHAIN_LENGTHS_QUICK if quick else CHAIN_LENGTHS_THOROUGH
+    for _, e in shape_trees(r, lengths, True, 1 if quick else 3):
+        trees.append(e)
+        if r.random() < 0.3:
+            trees.append(sprinkle(e, r, 0.3))
     for _ in range(n):
         d = r.choice([2, 3, 3, 4, 4, 5, maxd, maxd])
         trees.append(gen_tree(r, d))
+    # the long shapes are expensive: spread them over the worker chunks
+    r.shuffle(trees)
     return trees
+
+
+class ModelRunner:
+    """extracted model with ONE vm_compute cross-sample per check, drawn from
+    the short requests only (Coq needs seconds to read and print a request of a
+    few thousand bytes, and the long shapes would dominate the run time)"""
+    def __init__(self, c):
+        self.c = c
+        self.pool = []
+
+    def __call__(self, lines, cross=True):
+        outs = self.c.model('lang', lines, cross=False)
+        if cross:
+            self.pool += [(l, o) for l, o in zip(lines, outs) if len(l) < 700 and len(o) < 2500]
+        return outs
+
+    def finish(self, k=25):
+        if self.pool:
+            self.c.rng.shuffle(self.pool)
+            pick = self.pool[:400]
+            self.c.vm_cross_sample('lang', [l for l, _ in pick], [o for _, o in pick], k=k)
 
 
 def limit_violations(c, per_name=3):
@@ -633,6 +781,7 @@ def check(c):
     # printed operator texts lex to exactly their tokens (C08Lex side conditions evaluated per text)
     lexcheck.run(c, ('print',))
     r = c.rng
+    model = ModelRunner(c)
     pay = learn_payloads(c)
 
     # ---------------- (a) table expressions ----------------
@@ -647,7 +796,7 @@ def check(c):
         lines.append(lexparse_line(a))
         lines.append(lexparse_line(b))
     impl = c.impl('lang', lines)
-    tab = c.model('lang', [sx([Sym('table'), enc_texp(e, pay)]) for e in trees])
+    tab = model([sx([Sym('table'), enc_texp(e, pay)]) for e in trees])
     # model parser on the real token streams
     plines, pidx = [], []
     parsed = []
@@ -657,7 +806,7 @@ def check(c):
         if isinstance(p, list) and len(p) == 3 and p[0] == b'ok':
             plines.append(sx([Sym('parse'), p[1]]))
             pidx.append(i)
-    mouts = c.model('lang', plines)
+    mouts = model(plines)
     model_of = dict(zip(pidx, mouts))
     spec_bad = 0
     for j, e in enumerate(trees):
@@ -737,7 +886,7 @@ def check(c):
             c.note_case('b:' + soups[i], False, 'soup-lex-error')
         else:
             c.violation('lexparse-crash', {'kind': 'impl-crash', 'text': soups[i], 'impl': o[:2000]})
-    mouts = c.model('lang', plines)
+    mouts = model(plines)
     for i, mo in zip(pidx, mouts):
         p = parse_sx(impl[i])
         iserr = isinstance(p[2], list) and p[2] and p[2][0] == b'perr'
@@ -750,7 +899,8 @@ def check(c):
     # recursion depth (fuel consumed) on a sample, against the proved bound
     dl = [plines[k] for k in range(0, len(plines), max(1, len(plines) // 200))][:200]
     dl = [l.replace('(parse ', '(depth ', 1) for l in dl]
-    douts = c.model('lang', dl, cross=False)
+    douts = model(dl, cross=False)
+    model.finish()
     mx = 0
     for l, o in zip(dl, douts):
         p = try_parse(o)
@@ -772,39 +922,69 @@ def check(c):
             continue
         if not magnitude_ok(e, {}):
             continue
-        vt.append(e)
+        vt.append(('random', e))
+    # long runs and wide rows over small integers (see shape_trees)
+    lengths = CHAIN_LENGTHS_QUICK if c.tier == 'quick' else CHAIN_LENGTHS_THOROUGH
+    for ln in lengths:
+        got = {}
+        for _ in range(8):
+            for kind, e in shape_trees(r, [ln], False):
+                if kind not in got and magnitude_ok(e, {}):
+                    got[kind] = e
+        vt += sorted(got.items())
+        c.note_case('shape-kinds-%d' % ln, False, None)
     lines = []
     vtexts = []
-    for e in vt:
-        a = render(toks(e, 0), r)
-        b = render(toks(full(e), 0), r)
-        vtexts.append((a, b))
-        lines.append(sx([Sym('eval'), cps(a)]))
-        lines.append(sx([Sym('eval'), cps(b)]))
+    NR = 4
+    for kind, e in vt:
+        rs = [render(toks(e, 0), r), render(toks(full(e), 0), r),
+              render(toks(sprinkle(e, r, r.choice([0.2, 0.5, 1.0])), 0), r), render(toks(unpar(e), 0), r)]
+        vtexts.append(rs)
+        lines += [sx([Sym('eval'), cps(t)]) for t in rs]
     outs = c.impl('lang', lines)
     agree_val = 0
-    for j, e in enumerate(vt):
-        a, b = vtexts[j]
-        oa, ob = try_parse(outs[2 * j]), try_parse(outs[2 * j + 1])
+    names = ['min', 'full', 'some-parens', 'no-explicit-parens']
+    for j, (kind, e) in enumerate(vt):
+        rs = vtexts[j]
+        os_ = [try_parse(o) for o in outs[NR * j: NR * j + NR]]
+        oa = os_[0]
         kinds = ops_in(e, set())
-        c.note_case('c:' + a, len(kinds) >= 2 or tree_depth(e) >= 3, 'value-ok' if isinstance(oa, list) and oa[0] == b'o' else 'value-err')
-        rep = {'tree': repr(e), 'min': a, 'full': b, 'impl_min': outs[2 * j][:500], 'impl_full': outs[2 * j + 1][:500]}
-        if not (isinstance(oa, list) and isinstance(ob, list) and oa[0] in (b'o', b'e') and ob[0] in (b'o', b'e')):
+        okish = isinstance(oa, list) and oa and oa[0] == b'o'
+        c.note_case('c:' + rs[0], len(kinds) >= 2 or tree_depth(e) >= 3,
+                    ('value-%s-' % (kind if kind == 'random' else 'shape')) + ('ok' if okish else 'err'))
+        if kind != 'random':
+            c.dist['shape:' + kind] = c.dist.get('shape:' + kind, 0) + 1
+        rep = {'tree': repr(e)[:4000], 'shape': kind}
+        for nm, t, o in zip(names, rs, outs[NR * j: NR * j + NR]):
+            rep[nm] = t[:3000]
+            rep['impl_' + nm] = o[:500]
+        if not all(isinstance(o, list) and o and o[0] in (b'o', b'e') for o in os_):
             c.violation('evaluate-crash-or-hang', dict(rep, kind='impl-crash'))
             continue
-        same = (oa[0] == ob[0]) and (oa[0] == b'e' or oa[1] == ob[1])
-        if not same:
-            c.violation('value-min-vs-full', dict(rep, kind='impl-vs-spec', layer='L2'))
+        bad = [nm for nm, o in zip(names, os_) if not ((o[0] == oa[0]) and (o[0] == b'e' or o[1] == oa[1]))]
+        if bad:
+            c.violation('value-min-vs-' + bad[0], dict(rep, kind='impl-vs-spec', layer='L2', differing=bad))
             continue
         v = ref_eval(e, {})
-        if v is not None and isint(v) and oa[0] == b'o':
-            if oa[1].decode('utf-8', 'replace').replace(',', '') != str(int(v)):
+        if v is not None and isint(v):
+            # inside the reference's domain an error is as wrong as another number
+            got = oa[1].decode('utf-8', 'replace').replace(',', '') if oa[0] == b'o' else 'error: ' + oa[1].decode('utf-8', 'replace')
+            if got != str(int(v)):
                 c.violation('value-vs-reference', dict(rep, kind='impl-vs-spec', layer='L2', reference=str(int(v))))
             else:
                 agree_val += 1
     c.extra['values_equal_to_reference'] = agree_val
     if vt:
-        c.sample({'op': 'eval', 'min': vtexts[-1][0], 'full': vtexts[-1][1], 'impl': outs[-2][:200]})
+        c.sample({'op': 'eval', 'min': vtexts[-1][0][:300], 'full': vtexts[-1][1][:300], 'impl': outs[-NR][:200]})
+
+
+def unpar(e):
+    k = e[0]
+    if k in 'NIJ':
+        return e
+    if k == 'P':
+        return unpar(e[1])
+    return tuple(unpar(x) if isinstance(x, tuple) else x for x in e)
 
 
 def replay(c, obj):
